@@ -142,4 +142,36 @@ func TestBoundedC11(t *testing.T) {
 	u := &boundedResult{name: "utf8-addr-xtext-decoder-vs-rfc6533", bound: "all concatenations of <= 5 tokens from {\\x{,},\\,x,{,0,1,4,5,8,A,C,D,F,a,é,+}"}
 	shortStrings([]string{"\\x{", "}", "\\", "x", "{", "0", "1", "4", "5", "8", "A", "C", "D", "F", "a", "é", "+"}, 5, func(s string) { judge(u, s, refUTF8AddrXtext, decodeUTF8AddrXtext) })
 	u.print(t)
+	// every hexpoint form around the boundaries of the grammar (RFC 6533 section 3: 2- to 6-digit forms, no
+	// leading zero beyond two digits, no surrogates, nothing above 10FFFF), alone and between two letters
+	h := &boundedResult{name: "utf8-addr-xtext-hexpoints-vs-rfc6533", bound: "\\x{H} alone and between two letters for every H of 1..3 hex digits, and for every value within 2 of 0, 9, 10, 19, 20, 2B, 3D, 5C, 7F, 80, FF, 100, FFF, 1000, D7FF, D800, DFFF, E000, FFFF, 10000, FFFFF, 100000, 10FFFF, 110000, 1FFFFF in every zero-padded width up to 6"}
+	seen := map[string]bool{}
+	try := func(hx string) {
+		if seen[hx] {
+			return
+		}
+		seen[hx] = true
+		judge(h, "\\x{"+hx+"}", refUTF8AddrXtext, decodeUTF8AddrXtext)
+		judge(h, "a\\x{"+hx+"}b", refUTF8AddrXtext, decodeUTF8AddrXtext)
+	}
+	for v := 0; v < 0x1000; v++ {
+		for w := 1; w <= 3; w++ {
+			if s := fmt.Sprintf("%0*X", w, v); len(s) == w {
+				try(s)
+			}
+		}
+	}
+	for _, b := range []int{0, 0x9, 0x10, 0x19, 0x20, 0x2B, 0x3D, 0x5C, 0x7F, 0x80, 0xFF, 0x100, 0xFFF, 0x1000, 0xD7FF, 0xD800, 0xDFFF, 0xE000, 0xFFFF, 0x10000, 0xFFFFF, 0x100000, 0x10FFFF, 0x110000, 0x1FFFFF} {
+		for v := b - 2; v <= b+2; v++ {
+			if v < 0 {
+				continue
+			}
+			for w := 1; w <= 6; w++ {
+				if s := fmt.Sprintf("%0*X", w, v); len(s) == w {
+					try(s)
+				}
+			}
+		}
+	}
+	h.print(t)
 }
